@@ -9,7 +9,7 @@ SPEC = {
                  '(real constructor and chain, stubbed libraries); unknown keys; reset_prms after symbolic nested in-place edits for '
                  'every subset choice of names; the YAML route exercised on concrete files through the real ruamel parser',
     'bounds': {'quick': 'tables of 1 hit x 10 per-call key profiles of depth 1-3 (unknown keys included) with symbolic values, 2 hits for 3 profiles; '
-                        'reset_prms with every leaf edited and a symbolic choice of which names are reset',
+                        'reset_prms with every leaf edited and a symbolic choice of which names are reset (no name: None, [] or ())',
                'thorough': 'as quick with 2 hits for 7 of the 10 profiles'},
     'outside': 'the YAML route for arbitrary values (a value has to pass through YAML text and ruamel\'s parser: concrete I/O; exercised '
                'for the packaged file, for MSA: null over a numeric global and for a nested override only)',
